@@ -370,6 +370,10 @@ package client
 // the accept handler find in the client - is a channel made for this connection (a token left in
 // a channel shared with an earlier connection would open the gate before this handshake)
 //@   assert gate_belongs_to_this_connection at call NewInterruptableThreadComplete : [C18] fresh(handshakeCompleteChannel) && ival(aval(c.handshakeCompleteChannel)) == handshakeCompleteChannel
+// and when its threads start the connection is neither accepted nor past its handshake, whatever an
+// earlier connection left behind (an accept still queued from the old connection is handled before
+// this point or on this connection, never in between with the flag surviving)
+//@   assert starts_unauthenticated at call NewInterruptableThreadComplete : [C18] typeis(aval(c.accepted), bool) && !bval(aval(c.accepted)) && typeis(aval(c.handshakeComplete), bool) && !bval(aval(c.handshakeComplete))
 
 // The session of a connection: a new random hash, the server session key derived from the
 // configured server key and that hash, the client session key from the client key and that hash.
